@@ -318,6 +318,10 @@ def apply_dev(frame, dev):
         elif kind == 'revrows':
             for c in f:
                 c[2].reverse()
+        elif kind == 'rotrows':
+            for c in f:
+                if c[2]:
+                    c[2].append(c[2].pop(0))
         elif kind == 'addrow':
             pos = dev[1]
             nulls = dev[3] if len(dev) > 3 else []
@@ -325,6 +329,8 @@ def apply_dev(frame, dev):
                 v = None if ci in nulls else filler(c, dev[2])
                 if pos == 'end':
                     c[2].append(v)
+                elif pos == 'mid':
+                    c[2].insert(1, v)
                 else:
                     c[2].insert(0, v)
         elif kind == 'extracol':
@@ -381,6 +387,8 @@ def structural_devs(frame, extra_labels=('int64',)):
     yield ['addrow', 'front', 1]
     if n >= 2:
         yield ['revrows']
+    if n >= 3:
+        yield ['rotrows']
     for lab in extra_labels:
         yield ['extracol', 'end', lab]
         yield ['extracol', 'front', lab]
@@ -417,7 +425,7 @@ def relevant_dims(dev):
         return ['co', 'cd', 'ct']
     if k in ('droprow', 'addrow'):
         return ['cond', 'cd', 'sort']
-    if k == 'revrows':
+    if k in ('revrows', 'rotrows'):
         return ['sort', 'cd', 'cond']
     if k == 'extracol':
         return ['cx', 'co', 'cd', 'ct']
@@ -505,3 +513,68 @@ def hist_menu(which):
                 continue
             out.append([e, pair, dict(HIST_DEFAULT, **diff)])
     return out
+
+
+# ------------------------------------------ option pairs (L2-option-pairs)
+#
+# Deviations that exactly one option can neutralise, on two reference frames
+# (one without nulls, one whose second row is excluded by the value-based
+# condition `a is not null`).  For two deviations of different kinds the
+# comparison passes iff BOTH neutralising options are honoured; the layer
+# runs the full product of the two option menus (the model says which points
+# must pass and which must fail).
+
+PAIR_REFS = {
+    'plain': [mk('a', 'float64', [2.0, -1.25, 0.0]),
+              mk('b', 'int64', [1, 3, -2]),
+              mk('c', 'str', ['a', 'B1', 'a'])],
+    'nullrow': [mk('a', 'float64', [2.0, None, -1.25]),
+                mk('b', 'int64', [1, 3, -2]),
+                mk('c', 'str', ['a', 'B1', 'a'])],
+}
+#           kind        deviation                           neutralising menu
+NEUTRAL = [
+    ('order', ['revrows'], {'sort': [None, 'first']}),
+    ('order', ['rotrows'], {'sort': [None, 'first']}),
+    ('rows', ['addrow', 'front', 1, [0]],
+     {'cond': [None, 'all', 'notnull', 'none']}),
+    ('rows', ['addrow', 'end', 0, [0]],
+     {'cond': [None, 'all', 'notnull', 'none']}),
+    ('rows', ['addrow', 'mid', 1, [0]],
+     {'cond': [None, 'all', 'notnull', 'none']}),
+    ('rows', ['droprow', 1], {'cond': [None, 'all', 'notnull', 'none']}),
+    ('prec', ['cell', 0, 0, ['delta', 0.001]], {'prec': [6, 2]}),
+    ('type', ['dtype', 1, 'float64'],
+     {'ct': ['none', 'false', 'list'], 'tm': [None, 'permissive']}),
+    ('colorder', ['swap', 1, 2], {'co': ['none', 'false', 'list']}),
+    ('extra', ['extracol', 'end', 'int64'],
+     {'cx': ['none', 'false', 'list']}),
+    ('data', ['cell', 2, 0, 'B1'], {'cd': ['none', 'list', 'false']}),
+]
+
+
+def neutral_combos(k):
+    """Every set of k neutralisable deviations of pairwise different kinds,
+    on every reference frame it applies to: (ref name, [devs], menu)."""
+    for refname in ('plain', 'nullrow'):
+        ref = PAIR_REFS[refname]
+        for combo in itertools.combinations(range(len(NEUTRAL)), k):
+            kinds = [NEUTRAL[i][0] for i in combo]
+            if len(set(kinds)) != k:
+                continue
+            devs = [NEUTRAL[i][1] for i in combo]
+            # the excluded-row deviations: adding on 'plain', dropping the
+            # reference's own excluded row on 'nullrow'
+            if refname == 'plain' and ['droprow', 1] in devs:
+                continue
+            if refname == 'nullrow' and any(d[0] == 'addrow' for d in devs):
+                continue
+            f = ref
+            for d in devs:
+                f = apply_dev(f, d) if f is not None else None
+            if f is None:
+                continue
+            menu = {}
+            for i in combo:
+                menu.update(NEUTRAL[i][2])
+            yield refname, devs, menu
